@@ -12,6 +12,7 @@ import z3
 from .values import SV, Loc, Unsupported, lift, fresh, simp, sort_of, kind_name, RecType, concrete_of, IntSeq
 
 ROOTS = ('/repo/', '/verif/spec/', '/verif/contracts/')
+MAX_LEN = 2 ** 62      # typing fact: no Python sequence is longer than sys.maxsize
 
 
 # ------------------------------------------------------------------ native meaning of contract helpers
@@ -285,6 +286,7 @@ class Bytes(Builder):
         if self.n is not None:
             ip.st.assume(ln == self.n)
         else:
+            ip.st.assume(ln < MAX_LEN)
             if self.minlen:
                 ip.st.assume(ln >= self.minlen)
             if self.maxlen is not None:
@@ -319,7 +321,9 @@ class Str(Builder):
         self.alphabet, self.sample_max = alphabet, sample_max
 
     def symbolic(self, ip, name):
-        return fresh(name, 'str')
+        v = fresh(name, 'str')
+        ip.st.assume(z3.Length(v.e) < MAX_LEN)
+        return v
 
     def sample(self, rng):
         alpha = self.alphabet or "abcXYZ019 :/-_'Hp\né中"
@@ -340,6 +344,7 @@ class SeqOf(Builder):
     def symbolic(self, ip, name):
         v = fresh(name, self.kind)
         ln = z3.Length(v.e)
+        ip.st.assume(ln < MAX_LEN)
         if self.minlen:
             ip.st.assume(ln >= self.minlen)
         if self.maxlen is not None:
